@@ -53,6 +53,8 @@ class _Renamer(ast.NodeTransformer):
         for fr in reversed(self.stack):
             if isinstance(fr, tuple):
                 if node.id in fr[1]:
+                    if fr[0] == "comp":
+                        return ast.copy_location(ast.Name(id=node.id + "_c", ctx=node.ctx), node)
                     return node
                 continue
             if node.id in fr:
@@ -65,7 +67,7 @@ class _Renamer(ast.NodeTransformer):
             for n in ast.walk(g.target):
                 if isinstance(n, ast.Name):
                     bound.add(n.id)
-        self.stack.append(("shadow", bound))
+        self.stack.append(("comp", bound))       # comprehension variables are renamed too
         node = self.generic_visit(node)
         self.stack.pop()
         return node
